@@ -32,6 +32,11 @@ type c07Scen struct {
 	Sched []c07Step `json:"sched"`
 	// Stress > 0: instead of a schedule, that many concurrent duplicate responses through the real connection
 	Stress int `json:"stress,omitempty"`
+	// Shape of the first response of a stress scenario: 0 empty result, 1 type='error' without an <error/> child,
+	// 2 result with a known payload and an unknown extra child, 3 result whose payload is unknown to the library
+	Shape int `json:"shape,omitempty"`
+	// DL: the requests' contexts carry a (far) deadline; cancellation must be honoured all the same
+	DL bool `json:"dl,omitempty"`
 }
 
 type c07Proc struct {
@@ -170,7 +175,17 @@ func c07RunOne(w *tr.Writer, tid int, raw json.RawMessage, c *common) error {
 		all := ""
 		for k := 1; k <= sc.Stress; k++ {
 			w.Emit(tr.Rec{"ev": "look", "k": k, "id": 1})
-			all += "<iq type='result' id='" + idStr(1) + "' from='k" + strconv.Itoa(k) + "@resp'/>"
+			from := "' from='k" + strconv.Itoa(k) + "@resp'"
+			switch {
+			case k == 1 && sc.Shape == 1:
+				all += "<iq type='error' id='" + idStr(1) + from + "/>"
+			case k == 1 && sc.Shape == 2:
+				all += "<iq type='result' id='" + idStr(1) + from + "><query xmlns='jabber:iq:version'><name>srv</name></query><extra xmlns='urn:example:unknown'>x</extra></iq>"
+			case k == 1 && sc.Shape == 3:
+				all += "<iq type='result' id='" + idStr(1) + from + "><thing xmlns='urn:example:unknown'><deep/></thing></iq>"
+			default:
+				all += "<iq type='result' id='" + idStr(1) + from + "/>"
+			}
 		}
 		env.conn.Write(all)
 		r := &req{name: "r1", id: 1, ch: ch}
@@ -196,6 +211,11 @@ func c07RunOne(w *tr.Writer, tid int, raw json.RawMessage, c *common) error {
 		switch st.P {
 		case "sendbegin":
 			ctx, cancel := context.WithCancel(context.Background())
+			if sc.DL {
+				var c2 context.CancelFunc
+				ctx, c2 = context.WithTimeout(ctx, time.Hour)
+				_ = c2
+			}
 			r := &req{name: rname, id: st.ID, cancel: cancel, ctx: ctx, sp: newProc("send-" + rname)}
 			reqs[rname] = r
 			cp := newProc("ctx-" + rname)
@@ -386,10 +406,17 @@ func runC07(args []string) error {
 	tid := 0
 	for _, ln := range lines {
 		tid++
+		if tid%2 == 0 {
+			var sc c07Scen
+			if json.Unmarshal(ln, &sc) == nil && !sc.DL {
+				sc.DL = true
+				ln, _ = json.Marshal(sc)
+			}
+		}
 		scens = append(scens, tidScen{tid, ln})
 	}
 	for i := 0; i < *stress; i++ {
-		b, _ := json.Marshal(c07Scen{Stress: 2 + i%7})
+		b, _ := json.Marshal(c07Scen{Stress: 1 + i%7, Shape: (i / 7) % 4})
 		tid++
 		scens = append(scens, tidScen{1000000 + tid, b})
 	}
